@@ -825,9 +825,13 @@ impl Property for C10 {
             return res;
         }
         // workload: dictionary programs, or (one third) I/O scripts
-        let (source, input, features): (String, Vec<u8>, Vec<&'static str>) = if tape.chance(1, 3) {
+        let (source, input, features): (String, Vec<u8>, Vec<&'static str>) = if tape.chance(1, 4) {
             let sc = crate::c08::gen_scenario(tape);
             (sc.source, sc.input, vec!["io script"])
+        } else if tape.chance(1, 3) {
+            // any program is workload here: the runs are each other's reference
+            let s = crate::soup::gen_soup(tape);
+            (s.source, s.input, vec!["soup program"])
         } else {
             let p = gen_dict_program(tape);
             (p.source, p.input, p.features)
